@@ -25,4 +25,38 @@ CHECKS = {
         "note": _NOTE_COMMON + " Iterator clause checked on the default store only, interleavings of calls in one thread.",
     },
 }
+_T = "TLA+ spec + TLC model checking (tier P / implementation-shaped tier I, deviation variants must be refuted) + TLC trace validation of replayed TLC-generated and seeded histories"
+CHECKS.update({
+    "C02": {"engine": "store", "technique": _T,
+            "level": ("TLC checks isolation, remove-everywhere, remove_graph and purity action properties on the dataset state machine and refinement of the Memory-store transcription with three contexts; "
+                      "every TLC-exported dataset history (default / IRI-named / bnode-named graphs; add, addN, remove, remove-everywhere, graph, remove_graph) up to the depth bound plus seeded long histories is replayed "
+                      "through Dataset (default_union on/off) and ConjunctiveGraph, via the dataset API and via independent views, graph given as object or identifier; TLC validates quads(), graphs(), every view under all pattern shapes, "
+                      "quad membership and context-restricted queries for existing, empty and unknown graphs against the property spec."),
+            "note": _NOTE_COMMON},
+    "C13": {"engine": "store", "technique": _T,
+            "level": ("Every read-only call of a 60-kind read alphabet (serialize x 20 format/target combinations, 21 SPARQL queries incl. FROM/FROM NAMED/GRAPH/paths/aggregates/DESCRIBE, comparison and canonicalisation, iteration, slicing, "
+                      "Resource, paths, triples_choices ...) is executed twice after TLC-exported and seeded write histories; TLC validates that quads and the graph set after each read equal the state the property spec holds "
+                      "(reads are stutter steps on <<G, made>>) and that both answers agree."),
+            "note": _NOTE_COMMON + " Answers are compared through digests computed by the harness; documents that differ as text are compared by parsed canonical meaning."},
+    "C17": {"engine": "namespaces", "technique": _T,
+            "level": ("TLC checks the transcription of Memory.bind + NamespaceManager.bind + compute_qname (memo cache, trie) against bijection, qname-bound, expand-back, frame and no-generate properties to depth 6 "
+                      "(both pinned-commit deviations are refuted by TLC: stale memo cache, cross-linked no-override bind); all exported histories to the depth bound, TLC-simulated depth-7 behaviours and seeded histories adding "
+                      "qname/curie/n3/strict/expand/serialize/parse are replayed on both stores; TLC validates listing, both lookup directions and every result after every event."),
+            "note": _NOTE_COMMON + " Which prefix a bind ends up with is left free (only consistency, frame and expansion are judged)."},
+    "C18": {"engine": "auditable", "technique": _T,
+            "level": ("TLC checks the log discipline of AuditableStore (rollback restores exactly the touched quads to the snapshot, commit keeps, second rollback is a no-op, the other wrapper's quads stay intact) over all 16 initial contents, "
+                      "one wrapper and two interleaved wrappers; the pinned-commit variant of add() is refuted; all exported histories (depth 4-6) and seeded 40-step histories over 3 graphs are replayed on Memory+AuditableStore through "
+                      "Graph and ConjunctiveGraph facades and the wrapped store's quads after every call are validated by TLC."),
+            "note": _NOTE_COMMON},
+    "C19": {"engine": "collection", "technique": _T,
+            "level": ("TLC checks the transcription of collection.py against Python-list semantics and chain well-formedness (repaired variant holds, pinned-commit variant refuted); all exported histories of append/+=/c[i]=x/del c[i]/clear "
+                      "for every index incl. out of range, from every start list of length 0-3, followed by every read, plus corruption scenarios under a watchdog and seeded histories, are replayed; TLC validates every result/exception, "
+                      "list(c), len and the full set of rdf:first/rdf:rest triples (well-formed chain, no orphans) after every event."),
+            "note": _NOTE_COMMON + " One known finding (setitem at index == len) is modelled as a named deviation; see known_findings.jsonl."},
+})
+ENGINES += [
+    {"name": "namespaces", "path": "spec/Namespaces.tla spec/TraceNamespaces.tla harness/rvf/ns_replay.py", "serves_properties": ["C17"], "kind_free_text": "TLA+ transcription of bind/compute_qname + trace validation"},
+    {"name": "auditable", "path": "spec/Auditable.tla spec/TraceAuditable.tla harness/rvf/aud_replay.py", "serves_properties": ["C18"], "kind_free_text": "TLA+ log-discipline model + trace validation"},
+    {"name": "collection", "path": "spec/Collection.tla spec/TraceCollection.tla harness/rvf/coll_replay.py", "serves_properties": ["C19"], "kind_free_text": "TLA+ transcription of collection.py + trace validation"},
+]
 NOT_BUILT: dict = {}
